@@ -5,8 +5,12 @@ package main
 import (
 	"errors"
 	"fmt"
+	"io"
 	"os"
 	"os/exec"
+	"runtime"
+	"strconv"
+	"strings"
 	"sync"
 	"time"
 
@@ -99,9 +103,84 @@ func closeWithEsc() {
 	os.Exit(0)
 }
 
+// raceChild stresses the Escape timer against the end of the run loop and against the next
+// rune: many parsers in parallel, each fed ESC and then, about 10 ms later (the timer's delay,
+// with jitter on both sides), either the end of input or the bytes "[A".  A callback that sends
+// after the channel was closed panics the whole process (that is why this is a child); a
+// callback that runs after the "[" was handled turns ESC [ A into Escape, "A".  Prints
+// "<attempts> <hangs> <garbled>" and exits 0; a panic ends the process with Go's exit status 2.
+func raceChild() {
+	workers, rounds := 48, 10
+	if os.Getenv("C08_RACE_LONG") != "" {
+		workers, rounds = 64, 60
+	}
+	var wg sync.WaitGroup
+	var mu sync.Mutex
+	attempts, hangs, garbled := 0, 0, 0
+	garbledWhat := ""
+	for w := 0; w < workers; w++ {
+		wg.Add(1)
+		go func(w int) {
+			defer wg.Done()
+			for i := 0; i < rounds; i++ {
+				pr, pw := io.Pipe()
+				p := ansi.NewParser(pr)
+				done := make(chan []string, 1)
+				go func() {
+					var got []string
+					for seq := range p.Next() {
+						got = append(got, fmt.Sprintf("%T", seq))
+						p.Finish(seq)
+					}
+					done <- got
+				}()
+				_, _ = pw.Write([]byte{0x1b})
+				d := 10*time.Millisecond + time.Duration(((w*rounds+i)*37)%600-300)*time.Microsecond
+				t0 := time.Now()
+				for time.Since(t0) < d {
+					runtime.Gosched()
+				}
+				tail := (w+i)%2 == 1
+				if tail {
+					_, _ = pw.Write([]byte("[A"))
+				}
+				_ = pw.Close()
+				select {
+				case got := <-done:
+					if tail {
+						s := strings.Join(got, " ")
+						okSeq := s == "ansi.CSI ansi.EOF"
+						okEsc := s == "ansi.C0 ansi.Print ansi.Print ansi.EOF"
+						if !okSeq && !okEsc {
+							mu.Lock()
+							garbled++
+							garbledWhat = s
+							mu.Unlock()
+						}
+					}
+				case <-time.After(5 * time.Second):
+					mu.Lock()
+					hangs++
+					mu.Unlock()
+				}
+				mu.Lock()
+				attempts++
+				mu.Unlock()
+			}
+		}(w)
+	}
+	wg.Wait()
+	time.Sleep(30 * time.Millisecond) // callbacks still outstanding run now
+	fmt.Printf("RACE %d %d %d %s\n", attempts, hangs, garbled, garbledWhat)
+	os.Exit(0)
+}
+
 func main() {
 	if os.Getenv("C08_CHILD") == "close-esc" {
 		closeWithEsc()
+	}
+	if os.Getenv("C08_CHILD") == "race" {
+		raceChild()
 	}
 	cfg := hx.ParseFlags()
 	trunc := hx.NewStream("truncate", "model.Parser model.ParserCheck", "pcase", "c08_mismatches", "c08_violations")
@@ -304,6 +383,50 @@ func main() {
 				What: fmt.Sprintf("child process failed: %v: %s", err, tail)})
 		}
 	}
-	cfg.Write("C08", "truncate: grammar-generated streams cut at EVERY byte offset, ended by EOF or by a read error (alternating), read in one or two chunks, half of the runs retaining every delivered sequence without Finish (deep copies compared at the end); timing: heads that leave the parser in each kind of state, then ESC, then 40 ms of real silence, then a tail (majority of up to three runs because real time is involved); close: Close() on a parser blocked in a read whose reader then returns forever. non-trivial = strictly inside the stream / any timing case",
-		[]*hx.Stream{trunc, timing}, map[string]interface{}{"timing_cases_needing_third_run": unstable, "close_runs": closeRuns}, direct)
+	// 4. the Escape timer against the end of the run loop / the next rune, under real scheduling
+	race := hx.NewStream("race", "model.Parser model.ParserRace", "race_case", "c08_race_mismatches", "c08_race_violations")
+	{
+		children := 6
+		if cfg.Thorough() {
+			children = 24
+		}
+		for c := 0; c < children; c++ {
+			cmd := exec.Command(os.Args[0])
+			cmd.Env = append(os.Environ(), "C08_CHILD=race")
+			if cfg.Thorough() {
+				cmd.Env = append(cmd.Env, "C08_RACE_LONG=1")
+			}
+			out, err := cmd.CombinedOutput()
+			attempts, hangs, garbled, panics := 0, 0, 0, 0
+			what := ""
+			for _, l := range strings.Split(string(out), "\n") {
+				if strings.HasPrefix(l, "RACE ") {
+					f := strings.SplitN(l, " ", 5)
+					attempts, _ = strconv.Atoi(f[1])
+					hangs, _ = strconv.Atoi(f[2])
+					garbled, _ = strconv.Atoi(f[3])
+					if len(f) > 4 {
+						what = f[4]
+					}
+				}
+			}
+			if err != nil {
+				panics = 1
+				tail := string(out)
+				if k := strings.Index(tail, "panic:"); k >= 0 {
+					tail = tail[k:]
+				}
+				if len(tail) > 300 {
+					tail = tail[:300]
+				}
+				what = tail
+			}
+			race.Add(hx.Tuple(hx.Z(int64(attempts)), hx.Z(int64(panics)), hx.Z(int64(hangs+garbled))),
+				map[string]interface{}{"stream": "race", "input": "ESC, then about 10 ms later (jitter +-0.3 ms) the end of input or the bytes \"[A\", on many parsers in parallel in a child process",
+					"attempts": attempts, "child_panicked": panics, "hangs": hangs, "garbled": garbled, "what": what},
+				true, "child")
+		}
+	}
+	cfg.Write("C08", "race: child processes stress ESC followed about 10 ms later by the end of input or by \"[A\" (a send on the closed channel panics the child; a late callback garbles ESC [ A); truncate: grammar-generated streams cut at EVERY byte offset, ended by EOF or by a read error (alternating), read in one or two chunks, half of the runs retaining every delivered sequence without Finish (deep copies compared at the end); timing: heads that leave the parser in each kind of state, then ESC, then 40 ms of real silence, then a tail (majority of up to three runs because real time is involved); close: Close() on a parser blocked in a read whose reader then returns forever. non-trivial = strictly inside the stream / any timing case",
+		[]*hx.Stream{trunc, timing, race}, map[string]interface{}{"timing_cases_needing_third_run": unstable, "close_runs": closeRuns}, direct)
 }
